@@ -139,6 +139,9 @@ func c17Build(key string, row c17Row, onCmd bool, wide bool, posVariant int, pat
 	}
 	descs := map[string]string{}
 	t := decl.TString
+	if row.valname == "VAL" && !wide && !row.optional {
+		t = decl.TOnOff // a bool-kinded type with its own UnmarshalFlag: it takes an argument, so its value name and choices are part of the row
+	}
 	u := &decl.Opt{Field: "U", Long: row.long, Short: row.short, ValueName: row.valname, Type: t}
 	if row.choices {
 		u.Choices = []string{"ab", "cd"}
@@ -263,7 +266,7 @@ func init() {
 				if ll != "" {
 					rows = append(rows, c17Row{c17Script(ll, script), sh, "", false, true, false, false, false})
 					rows = append(rows, c17Row{c17Script(ll, script), sh, "", false, true, true, false, false})
-					rows = append(rows, c17Row{c17Script(ll, script), sh, "", true, true, false, false, false}) // nested namespaces
+					rows = append(rows, c17Row{c17Script(ll, script), sh, "", true, true, false, false, false})  // nested namespaces
 					rows = append(rows, c17Row{c17Script(ll, script), sh, "", false, false, false, false, true}) // optional argument, no value name
 					if script == 0 {
 						rows = append(rows, c17Row{c17Script(ll, script), sh, "LEVEL", true, false, false, true, false}) // very wide row
